@@ -93,6 +93,10 @@ def tlc_schedules(ctx, cfg_file: str, limit: int | None, rng: random.Random, con
         cfg, toks = parse_tagged([line], "SCHED")[0]
         c = {"noise": bool(cfg["noise"]), "exp": cfg["exp"], "login": bool(cfg["login"]), "K": int(cfg["K"]) * 1000}
         sch = tokens_to_schedule(toks)
+        if connected and len(out) % 2 == 1:
+            # what happens above an established session does not depend on the framing: every other
+            # generated schedule runs over Noise (the trace carries the framing, the specification follows)
+            c = dict(c, noise=True)
         out.append((c, (connsim.happy_connect(c) + sch) if connected else sch))
     if limit is not None and len(out) > limit:
         out = rng.sample(out, limit)
